@@ -160,9 +160,9 @@ UNIT = {
          },
         {"kind": "fn", "file": FN, "name": "trace", "impl": r"^impl Trace for FunctionSig$", "impl_header": "impl FunctionSig", "impl_name": "FunctionSig",
          "subst": GEN + [("self.return_type().into()", "self.return_type().item()", 1, "R12"), ("ty.into()", "ty.item()", 1, "R12"),
-                         ("for &(_, ty) in self.argument_types()", "let mut it = SliceCursor::new(self.argument_types()); while it.has_next()", 1, "R13")],
+                         (r"re:for\s+&?\(\s*\w+\s*,\s*\w+\s*\)\s+in\s+self\.argument_types\(\)", "let mut it = SliceCursor::new(self.argument_types()); while it.has_next()", 1, "R13 (whatever the two pattern names)")],
          "ghost_start": "let ghost log0 = tracer.log(); let ghost f = |a: (Option<String>, TypeId)| argty(a);",
-         "loops": {0: {"body_start": "let ty = it.next_item().1;", "decreases": "it.all().len() - it.pos()",
+         "loops": {0: {"header_re": r"for\s+&?\(\s*(\w+)\s*,\s*(\w+)\s*\)\s+in", "body_start": r"let item_ = it.next_item(); let \1 = &item_.0; let \2 = item_.1;", "decreases": "it.all().len() - it.pos()",
                        "invariant": ["it.all() == self.argument_types@ && 0 <= it.pos() <= it.all().len()",
                                      "f == (|a: (Option<String>, TypeId)| argty(a))",
                                      "tracer.log() == log0.push((self.return_type.0, EdgeKind::FunctionReturn)) + edges_map(self.argument_types@.subrange(0, it.pos()), f, EdgeKind::FunctionParameter)"],
